@@ -47,6 +47,7 @@ type keyTemplate struct {
 	Fields   []keyField
 	Sites    []string // file:line of the calls with this shape
 	Funcs    []string
+	Writers  map[string]string // package -> first site where a key of this shape is stored (Put / PutBytes)
 }
 
 func (t *keyTemplate) shape() string {
@@ -149,13 +150,23 @@ func (p *Program) keyObligations(repo, verif string) ([]*Ctx, error) {
 							widthNotes = append(widthNotes, fmt.Sprintf("unknown width: %s %s (%s)", fnName, f.Src, site))
 						}
 					}
+					writes := isKeyWriteSite(pkg.TypesInfo, fd, call)
 					for _, fs := range expandAlts(fields) {
 						t := &keyTemplate{Contract: contract, Fields: fs}
 						if old, ok := m[t.shape()]; ok {
 							old.Sites = append(old.Sites, site)
+							t = old
 						} else {
 							t.Sites = []string{site}
 							m[t.shape()] = t
+						}
+						if writes {
+							if t.Writers == nil {
+								t.Writers = map[string]string{}
+							}
+							if _, ok := t.Writers[pkg.PkgPath]; !ok {
+								t.Writers[pkg.PkgPath] = site
+							}
 						}
 					}
 					return true
@@ -184,6 +195,18 @@ func (p *Program) keyObligations(repo, verif string) ([]*Ctx, error) {
 			t1 := byContract[cname][s1]
 			pos := token.Position{Filename: filepath.Join(repo, strings.SplitN(t1.Sites[0], ":", 2)[0])}
 			fmt.Sscanf(strings.SplitN(t1.Sites[0], ":", 2)[1], "%d", &pos.Line)
+			// one record kind per prefix: records stored under one template from two different packages
+			// are two kinds of record unless a chain id (8 bytes) right after the prefix keeps them apart
+			// (routers share the header-sync and cross-chain prefixes, each under its own chain ids)
+			if len(t1.Writers) > 1 && !chainSeparated(t1) {
+				var ws []string
+				for pk, st := range t1.Writers {
+					ws = append(ws, strings.TrimPrefix(pk, modulePath+"/")+" ("+st+")")
+				}
+				sort.Strings(ws)
+				c.rawOblige(fmt.Sprintf("keys:%s:%s:one-writer-package", cname, s1), "(set-logic QF_SLIA)\n(check-sat)\n", pos,
+					fmt.Sprintf("template %s of %s is written from %d packages without a chain-id field after the prefix: %s", s1, cname, len(ws), strings.Join(ws, "; ")))
+			}
 			// injectivity of one template
 			c.rawOblige(fmt.Sprintf("keys:%s:%s:inj", cname, s1), keyQuery(t1, t1, true), pos,
 				fmt.Sprintf("template %s of %s is injective in its fields (sites: %s)", s1, cname, strings.Join(t1.Sites, ", ")))
@@ -223,6 +246,80 @@ func (p *Program) keyObligations(repo, verif string) ([]*Ctx, error) {
 	}
 	out = append(out, meta)
 	return out, nil
+}
+
+// chainSeparated: an 8-byte field directly follows (or precedes) the literal prefix.
+func chainSeparated(t *keyTemplate) bool {
+	for i, f := range t.Fields {
+		if f.IsLit {
+			if i+1 < len(t.Fields) && !t.Fields[i+1].IsLit && t.Fields[i+1].Width == 8 {
+				return true
+			}
+			if i > 0 && !t.Fields[i-1].IsLit && t.Fields[i-1].Width == 8 {
+				return true
+			}
+			return false
+		}
+	}
+	return false
+}
+
+// isKeyWriteSite: the key built by this ConcatKey call is stored under: the call (or the local
+// variable it is the only definition of) is the first argument of a call named Put or PutBytes
+// (key argument of utils.PutBytes is its second) in the same function.
+func isKeyWriteSite(info *types.Info, fd *ast.FuncDecl, ck *ast.CallExpr) bool {
+	var keyVar types.Object
+	ast.Inspect(fd.Body, func(n ast.Node) bool {
+		if as, ok := n.(*ast.AssignStmt); ok && len(as.Lhs) == len(as.Rhs) {
+			for i, r := range as.Rhs {
+				if stripParens(r) == ast.Expr(ck) {
+					if id, ok := as.Lhs[i].(*ast.Ident); ok {
+						keyVar = info.Defs[id]
+						if keyVar == nil {
+							keyVar = info.Uses[id]
+						}
+					}
+				}
+			}
+		}
+		return true
+	})
+	isKey := func(e ast.Expr) bool {
+		e = stripParens(e)
+		if e == ast.Expr(ck) {
+			return true
+		}
+		if id, ok := e.(*ast.Ident); ok && keyVar != nil && info.Uses[id] == keyVar {
+			return true
+		}
+		return false
+	}
+	found := false
+	ast.Inspect(fd.Body, func(n ast.Node) bool {
+		call, ok := n.(*ast.CallExpr)
+		if !ok || found {
+			return !found
+		}
+		name := ""
+		switch f := call.Fun.(type) {
+		case *ast.Ident:
+			name = f.Name
+		case *ast.SelectorExpr:
+			name = f.Sel.Name
+		}
+		switch name {
+		case "Put":
+			if len(call.Args) >= 1 && isKey(call.Args[0]) {
+				found = true
+			}
+		case "PutBytes":
+			if len(call.Args) >= 2 && isKey(call.Args[1]) {
+				found = true
+			}
+		}
+		return true
+	})
+	return found
 }
 
 // expandAlts: the cartesian product over fields that carry literal alternatives.
